@@ -44,6 +44,8 @@ def run_case(case):
 
 
 def _run_case(case):
+    import numpy as np
+    np.random.seed(case.get('inject_seed', 0) % (2 ** 31))   # RandomUnitaryEvolution draws from the global generator
     M = E.build_model(dict(case['model'], time=0.0) if case['td'] else case['model'])
     psi = E.build_state(M, case)
     if case.get('pre_steps'):
@@ -57,10 +59,14 @@ def _run_case(case):
     case_f['start_time'] = case['start_time'][0] / case['start_time'][1]
     case_f['start_eps'] = None if case.get('start_eps') is None else case['start_eps'][0] / case['start_eps'][1]
     opts = E.engine_options(case_f, call_dt(c0), c0['N'])
-    eng = E.engine_class(case['engine'], case['td'])(psi, M, opts)
+    if case['engine'] == 'RUE':
+        eng = E.engine_class('RUE', False)(psi, opts)
+    else:
+        eng = E.engine_class(case['engine'], case['td'])(psi, M, opts)
+    q0 = psi.get_total_charge().tolist()
     rec = E.Recorder(case['engine'], inject=injector(case['inject_seed']) if case.get('inject') else None)
     sweeps = []   # TDVP: len(trunc_err_list) after every sweep
-    obs = dict(L=psi.L, finite=bool(psi.finite), start=_snap(eng), calls=[])
+    obs = dict(L=psi.L, finite=bool(psi.finite), start=_snap(eng), calls=[], charge0=q0)
     with rec.active(eng):
         if case['engine'] in ('TDVP2', 'TDVP1'):
             cls = type(eng)
@@ -74,14 +80,20 @@ def _run_case(case):
         try:
             for c in case['calls']:
                 n0, u0, i0, s0 = len(rec.errors), len(rec.updates), len(rec.inner), len(sweeps)
-                eng.options['dt'] = call_dt(c)
-                eng.options['N_steps'] = c['N']
-                eng.run()
+                if case['engine'] == 'TEBDimag':
+                    # the imaginary-time path used by run_GS: calc_U(type_evo='imag') + update_imag, no run_evolution
+                    eng.calc_U(case['order'], c['dt'][0] / c['dt'][1], type_evo='imag')
+                    eng.update_imag(c['N'], call_canonical_form=bool(c['N'] % 2))
+                else:
+                    eng.options['dt'] = call_dt(c)
+                    eng.options['N_steps'] = c['N']
+                    eng.run()
                 snap = _snap(eng)
                 snap.update(errors=rec.errors[n0:], updates=rec.updates[u0:], inner=rec.inner[i0:],
-                            sweeps=sweeps[s0:], norm=float(psi.norm), chi=[int(x) for x in psi.chi])
+                            sweeps=sweeps[s0:], norm=float(psi.norm), chi=[int(x) for x in psi.chi],
+                            charge=psi.get_total_charge().tolist())
                 if case['engine'] == 'ExpMPO':
-                    snap['nU'] = len(eng._U_MPO)
+                    snap['nU'] = None if eng._U_MPO is None else len(eng._U_MPO)   # None: nothing prepared yet (N_steps=0)
                 obs['calls'].append(snap)
         finally:
             if case['engine'] in ('TDVP2', 'TDVP1'):
@@ -147,6 +159,11 @@ def oracle(case, obs):
                     f'(expected {float(eps):.17g})')
         if not close(float(ov), o['ov'], 1e-11):
             return f'trunc_err.ov.{lab}', f'call {k}: ov={o["ov"]!r} expected product {float(ov)!r}'
+        if o.get('charge') != obs.get('charge0'):
+            return f'charge.{lab}', f'call {k}: total charge {o.get("charge")} was {obs.get("charge0")}'
+        if not any(cc.get('imag') for cc in case['calls'][:k + 1]) and o['norm'] != 1.0:
+            # real-time run_evolution resets psi.norm to its old value (preserve_norm defaults to True)
+            return f'norm-not-preserved.{lab}', f'call {k}: psi.norm = {o["norm"]!r} after a real-time run()'
         # the truncations inside MPO.apply (SVD / zip_up compression) sum to what apply returns
         if case['engine'] == 'ExpMPO' and case.get('compression') in ('SVD', 'zip_up') and not case.get('inject'):
             s_in = sum(Fraction(x) for x in o['inner'])
@@ -162,6 +179,8 @@ def oracle(case, obs):
 
 
 def model_request(case, obs):
+    if case['engine'] in ('RUE', 'TEBDimag'):
+        return None   # oracle only (RandomUnitaryEvolution.evolve / TEBDEngine.update_imag are not in the Lean model)
     L = obs['L']
     if case['engine'] in ('TEBD', 'QRTEBD'):
         kind = dict(t='tebd', order=str(case['order']), L=L, finite=obs['finite'])
@@ -201,7 +220,7 @@ def compare_model(case, obs, mod):
             sw = [x for s in o['sweeps'] for x in s]
             if sw != [e for e, _ in o['errors']]:
                 return f'call {k}: trunc_err_list differs from the eps of the svd_theta calls'
-        if case['engine'] == 'ExpMPO' and o.get('nU') != (1 if case['order'] == 1 else 2):
+        if case['engine'] == 'ExpMPO' and o.get('nU') not in (None, 1 if case['order'] == 1 else 2):
             return f'call {k}: len(_U_MPO)={o.get("nU")}'
         mt = [float(Fraction(m['time'][0])), float(Fraction(m['time'][1]))]
         if mt != o['time']:
@@ -254,6 +273,21 @@ def gen_case(rng, idx, thorough=False):
                 chi_max=rng.choice([2, 3, 4]), start_time=rng.choice([[0, 1], [0, 1], [3, 8], [-1, 2]]),
                 start_eps=rng.choice([None, None, [1, 1024]]), calls=calls,
                 inject=rng.random() < 0.35, inject_seed=rng.randrange(10 ** 6))
+    r = rng.random()
+    if r < 0.06:
+        # RandomUnitaryEvolution (own `evolve`): oracle only
+        case.update(engine='RUE', td=False, model=dict(model, kind='nn', bc='finite', L=max(L, 4)),
+                    calls=[dict(c, imag=False, dt=[1, 1]) for c in calls])
+        case['model'].pop('J2', None), case['model'].pop('J3', None)
+        case.pop('pre_steps', None)
+        return case
+    if r < 0.12:
+        # the imaginary-time path of run_GS (calc_U(type_evo='imag') + update_imag): oracle only
+        case.update(engine='TEBDimag', td=False, order=2, model=dict(model, kind='nn', bc='finite', L=max(L, 4)),
+                    calls=[dict(c, imag=True) for c in calls if c['N'] > 0] or [dict(N=1, dt=[1, 8], imag=True)])
+        case['model'].pop('J2', None), case['model'].pop('J3', None)
+        case.pop('pre_steps', None)
+        return case
     if engine in ('TEBD', 'QRTEBD'):
         case['order'] = rng.choice([1, 2, 4, '4_opt'])
     elif engine == 'ExpMPO':
@@ -323,8 +357,10 @@ def evaluate(cases, use_model=True, pool=None, do_shrink=True):
     reqs, idxs = [], []
     for i, (case, obs) in enumerate(zip(cases, obss)):
         if 'exception' not in obs:
-            reqs.append(model_request(case, obs))
-            idxs.append(i)
+            rq = model_request(case, obs)
+            if rq is not None:
+                reqs.append(rq)
+                idxs.append(i)
     mods = {}
     if use_model and reqs:
         for i, m in zip(idxs, core.run_driver('C14', reqs)):
